@@ -3,14 +3,17 @@ import props._rtcommon as R
 
 ASSUMPTIONS = [
     "generated problems stay inside the safe region of the generator (harness/gen.py): no xM shortcut, no three chained "
-    "shortcuts, no '#' in columns 1-5, every ZAID with a library — those are C08/C12 findings",
+    "shortcuts, no '#' in columns 1-5, every ZAID with a library, no interpolation that ends in 0 — those are C08/C12's",
     "spec.py is this framework's reading of the MCNP 6.2 manual (MCNP itself is not available)",
+    "the theorems are about coq/Model/Tree.v; they reach the real code through the per-run correspondence (dumped real "
+    "trees, first and second format, cell parameter loop, importance trees) and the per-input validation of the parser "
+    "hypothesis (flatten(parsed tree) == text read, up to the comment lines parse_input moves to the next input)",
 ]
 
 
 def run(ctx):
     ctx, tb, dist = R.run_rt(ctx, "C03", 600, 8000, with_edits=True)
-    return ctx.finish(tb, ASSUMPTIONS, "generated problems x programs of 1-8 valid API edits (renumberings, densities, importances, volumes, surface constants, fractions, transform vectors, material assignment, title); distinct = distinct (text, program)", extra={"input_distribution": dist})
+    return ctx.finish(tb, ASSUMPTIONS, 'generated problems x programs of 1-30 valid API edits of 20 kinds (renumberings of cells/surfaces/materials/transforms/universes, material assignment, densities, importances, volumes, universe/fill/lattice, surface constants, boundary modifiers, surface transform, transform vector/degrees, fractions, thermal laws, title); the edited write must denote the unedited write with the edits applied by the reference model; distinct = distinct (text, program)', extra={"input_distribution": dist})
 
 
 def replay(ctx, path):
